@@ -14,7 +14,13 @@
 (*   s                   scalar / fill value                               *)
 (*   bkind, bml, bmu     storage of the second operand B (binary ops)      *)
 (*   bpat                fill pattern of B                                 *)
-(* Steps of a scenario: ctorA, fillA, [ctorB, fillB,] op.                  *)
+(*   op2                 "none", or a SECOND operation applied to the      *)
+(*                       result R of op: "is_identity" | "write" |         *)
+(*                       BinOps (R op2 C) | ScalarOps (scalar s2)          *)
+(*   i2, j2, s2          write position / scalar of op2                    *)
+(*   ckind, cml, cmu, cpat   the fresh operand C of a binary op2           *)
+(* Steps of a scenario: ctorA, fillA, [ctorB, fillB,] op,                  *)
+(*                      [[ctorC, fillC,] op2].                             *)
 (***************************************************************************)
 EXTENDS Matrix, MatrixContract
 
@@ -55,6 +61,12 @@ InitA(sc) == InitData(sc.ctor, sc.pat, sc.n)
 WsA(sc) == FillWrites(sc.pat, StA(sc), sc.n)
 WsB(sc) == FillWrites(sc.bpat, StB(sc), sc.n)
 
+StC(sc) == CtorStorage(BCtor(sc.ckind), sc.n, sc.cml, sc.cmu)
+WsC(sc) == FillWrites(sc.cpat, StC(sc), sc.n)
+HasOp2(sc) == sc.op2 # "none"
+IsBin2(sc) == sc.op2 \in BinOps
+Ops2 == {"none", "is_identity", "write"} \cup BinOps \cup ScalarOps
+
 IsBin(sc) == sc.op \in BinOps
 IsScalar(sc) == sc.op \in ScalarOps
 Ops == {"read", "write", "is_identity", "swap_rows", "fill"} \cup BinOps \cup ScalarOps
@@ -74,7 +86,32 @@ StepOp(sc, A, B) ==
     [] sc.op = "swap_rows" -> LET r == SwapRows(A, sc.i, sc.j) IN [panic |-> r.panic, mat |-> r.mat, val |-> FALSE]
     [] sc.op = "fill" -> [panic |-> FALSE, mat |-> Fill(A, sc.s), val |-> FALSE]
 
+StepCtorC(sc) == DoCtor(BCtor(sc.ckind), sc.n, sc.cml, sc.cmu, <<>>)
+StepFillC(sc, C) == DoWrites(C, WsC(sc))
+\* second operation, on the result R of the first one
+StepOp2(sc, R, C) ==
+  CASE sc.op2 = "write" -> LET r == Write(R, sc.i2, sc.j2, WRITEVAL) IN [panic |-> r.panic, mat |-> r.mat, val |-> FALSE]
+    [] sc.op2 \in BinOps -> LET r == DoBin(sc.op2, R, C) IN [panic |-> r.panic, mat |-> r.mat, val |-> FALSE]
+    [] sc.op2 \in ScalarOps -> LET r == DoScalar(sc.op2, R, sc.s2) IN [panic |-> r.panic, mat |-> r.mat, val |-> FALSE]
+    [] sc.op2 = "is_identity" -> LET r == IsIdentity(R) IN [panic |-> r.panic, mat |-> R, val |-> r.val]
+
 (* ---- Level-A: the clause of each step, on observed values -------------- *)
+ClauseCtorC(sc, obsPanic, obs) == C17_Ctor(BCtor(sc.ckind), sc.n, <<>>, obsPanic, obs)
+ClauseFillC(sc, dC, obsPanic, obs) == C17_Writes(StC(sc), dC, WsC(sc), obsPanic, obs)
+\* dR: dense meaning of the first result as observed; stR: the storage (kind, ml, mu) that result advertises
+ClauseOp2(sc, dR, dC, stR, obsPanic, obs, obsVal) ==
+  CASE sc.op2 = "write" -> C17_Write(stR, dR, sc.i2, sc.j2, WRITEVAL, obsPanic, obs)
+    [] sc.op2 \in BinOps -> C17_Bin(sc.op2, dR, dC, obsPanic, obs)
+    [] sc.op2 \in ScalarOps -> C17_Scalar(sc.op2, dR, sc.s2, obsPanic, obs)
+    [] sc.op2 = "is_identity" -> C17_IsIdentity(dR, obsPanic, obsVal)
+    [] OTHER -> TRUE
+ClauseName2(sc, stR) ==
+  CASE sc.op2 = "write" -> IF Writable(stR, sc.i2, sc.j2) THEN "write_in_band_after_op" ELSE "write_out_of_band_after_op"
+    [] sc.op2 \in BinOps -> "binop_after_op"
+    [] sc.op2 \in ScalarOps -> "scalar_after_op"
+    [] sc.op2 = "is_identity" -> "is_identity_after_op"
+    [] OTHER -> "none"
+
 \* dA, dB: dense meanings before the step (as observed); obs*: what came back
 ClauseCtorA(sc, obsPanic, obs) == C17_Ctor(sc.ctor, sc.n, InitA(sc), obsPanic, obs)
 ClauseFillA(sc, dA, obsPanic, obs) == C17_Writes(StA(sc), dA, WsA(sc), obsPanic, obs)
@@ -108,4 +145,13 @@ ExpectRes(sc) ==
     [] sc.op \in ScalarOps -> ScalarMeaning(sc.op, ExpectA1(sc), sc.s)
     [] OTHER -> ExpectA1(sc)          \* read / is_identity; swap_rows / fill: not specified by C17 (A before the op)
 ExpectIsId(sc) == ExpectA1(sc) = EyeD(sc.n)
+ExpectC1(sc) == WritesMeaning(CtorMeaning(BCtor(sc.ckind), sc.n, <<>>), WsC(sc), 1)
+\* second step; stR = storage of the first result (an implementation choice, taken from the Level-B model / the code)
+ExpectPanic2(sc, stR) == sc.op2 = "write" /\ ~Writable(stR, sc.i2, sc.j2)
+ExpectRes2(sc, stR) ==
+  CASE sc.op2 = "write" -> IF ExpectPanic2(sc, stR) THEN ExpectRes(sc) ELSE WriteMeaning(ExpectRes(sc), sc.i2, sc.j2, WRITEVAL)
+    [] sc.op2 \in BinOps -> BinMeaning(sc.op2, ExpectRes(sc), ExpectC1(sc))
+    [] sc.op2 \in ScalarOps -> ScalarMeaning(sc.op2, ExpectRes(sc), sc.s2)
+    [] OTHER -> ExpectRes(sc)
+ExpectIsId2(sc) == ExpectRes(sc) = EyeD(sc.n)
 =============================================================================
